@@ -20,7 +20,15 @@ range / reverse / partition quadrants), systematically for every kind x D x pair
 every unary kind, the binary kinds x modes between two such views, matmul, map / map_mut,
 from_iter(s), and views of views.  (9 tensor shape colmajor take (e ...) a): from_iters::<N> for
 N = 1..4 (N = 1 also through from_iter) with matching / non-matching target shapes, truncated and
-EMPTY record streams, consistent / mixed histories per output."""
+EMPTY record streams, consistent / mixed histories per output.
+Optional fifth argument (6 ty D prog outs (w ...)): the containers the derivatives are queried WITH
+RESPECT TO (default: the variable declarations) - query_cases(): every view kind x params over
+variables (and views of views, the OView kinds), containers whose tape positions INTERLEAVE
+(from_iters::<2> / ::<N> outputs with recording closures), containers whose positions DECREASE in
+view order (reverse view of records created through a reversed view), chained / stacked sources,
+products over transposed views; the harness reads them through every Derivatives query form
+(at_tensor / at_tensor_index / at_matrix / at_matrix_index / at / Index / Vec::from) and
+additionally sweeps every container of the environment; random programs pick random query sets."""
 import itertools
 from tools.vlib import sx
 
@@ -358,6 +366,110 @@ def collect_cases(ty, quick):
             yield sx([6, ty, D, [da, [9, 1, tshape(D, [n] + [1] * (D - 1), [3] * D), 0, n, [[0], [0]], 0]], [1, 2]])
 
 
+def query_cases(ty, quick):
+    """the QUERY side: derivatives of the outputs with respect to containers of every source kind
+    and tape layout (fifth argument), after an operation on the view and on the declaration"""
+    k = lambda v: num(ty, v)
+    X = [0]
+    shapes = {1: [[4], [1]], 2: [[2, 3], [3, 1], [2, 2]], 3: [[2, 2, 2], [2, 1, 3], [2, 3, 2]]}
+    for kind_name in ("t1", "t2", "t3", "m"):
+        tensor = kind_name != "m"
+        D = int(kind_name[1]) if tensor else 2
+        all_lens = shapes[D] if tensor else [[2, 3], [3, 2], [2, 2]]
+        kinds = range(10) if tensor else (0, 2, 9, 13)
+        for lens in all_lens:
+            sh = tshape(D, lens) if tensor else mshape(*lens)
+            n = elements(sh)
+            da = [0, tensor, 1, sh, data(ty, n, 0)]
+            db = [0, tensor, 1, sh, data(ty, n, 4)]
+            pad = [0, tensor, 1, (tshape(D, [1] * D) if tensor else mshape(1, 1)), data(ty, 1, 9)]
+            for vkind in kinds:
+                two = vkind in (7, 8)
+                plist = list(view_params(vkind, lens))
+                if vkind in (4, 5) and D == 3:
+                    plist += [[[1, 0, 2]], [[0, 2, 1]]]     # permutations that keep the first / last dimension
+                for params in plist:
+                    view = [8, vkind, params, [0, 1] if two else [0]]       # env 2
+                    for code in ((12, 1) if not quick else (12,)):
+                        # an operation on the view / on the declaration itself; queried with
+                        # respect to the view, the declarations, all of them in either order
+                        for src in (2, 0):
+                            for wrt in ([2], [2, 0, 1], [0, 2]):
+                                yield sx([6, ty, D, [da, db, view, [1, 0, code, k(3), src]], [3], wrt])
+                    # x * x through the view, both sides the same container
+                    yield sx([6, ty, D, [da, db, view, [2, 1, 2, 2, 2]], [3], [2]])
+                    # the declaration does not start at tape position 0
+                    yield sx([6, ty, D, [pad, da, db, [8, vkind, params, [1, 2] if two else [1]],
+                                        [1, 0, 12, k(2), 3]], [4], [3, 1]])
+                    # a view of the view
+                    for k2 in ((2, 4, 0) if tensor else (2, 0)):
+                        p2 = [[1] * D] if k2 == 2 else ([list(reversed(range(D)))] if k2 == 4 else [[0] * D, [1] * D])
+                        yield sx([6, ty, D, [da, db, view, [8, k2, p2, [2]], [1, 0, 12, k(2), 3]], [4], [3, 2]])
+            # ---- interleaved tape positions: from_iters::<2> / ::<N> with recording closures
+            e1, e2, e3 = [4, 2, X, X], [3, 10, k(1), X], [3, 12, k(2), X]
+            for wrt in ([1], [2], [1, 2], [2, 0, 1]):
+                yield sx([6, ty, D, [da, [6, e1, e2, 0], [2, 1, 2, 1, 2]], [3], wrt])
+                yield sx([6, ty, D, [da, [6, e1, e2, 0], [2, 1, 2, 1, 2]], [3, 1, 2], wrt])
+            for cm in ((0,) if tensor else (0, 1)):
+                for wrt in ([1], [2], [3], [3, 1, 2, 0]):
+                    yield sx([6, ty, D, [da, [9, tensor, sh, cm, n, [e1, e2, e3], 0], [2, 1, 0, 1, 2], [2, 1, 2, 4, 3]], [5], wrt])
+            # a reordered view of an interleaved container
+            for vkind in ((4, 5, 2) if tensor else (2,)):
+                for params in list(view_params(vkind, lens))[:2]:
+                    yield sx([6, ty, D, [da, [6, e1, e2, 0], [8, vkind, params, [2]], [1, 0, 12, k(3), 3]], [4], [3, 1, 2]])
+            # ---- positions that DECREASE in view order: records created through a reversed view,
+            # then reversed again (and its reordered views)
+            rev = [[1] * D]
+            base = [da, [8, 2, rev, [0]], [4, 0, e3, 1], [8, 2, rev, [2]]]       # env 3: decreasing
+            yield sx([6, ty, D, base + [[1, 0, 12, k(3), 3]], [4], [3]])
+            yield sx([6, ty, D, base + [[1, 0, 12, k(3), 3]], [4], [2, 3, 1, 0]])
+            yield sx([6, ty, D, base + [[2, 1, 2, 3, 3]], [4], [3, 2]])
+            if tensor and D > 1:
+                acc = [8, 4, [list(reversed(range(D)))], [3]]
+                yield sx([6, ty, D, base + [acc, [1, 0, 12, k(3), 4]], [5], [4, 3]])
+            # ---- matrix products over transposed / reordered operands
+            if D == 2:
+                r, c = lens
+                if tensor:
+                    tr = [8, 5, [[1, 0]], [0]]            # env 1: c x r, names kept
+                    for wrt in ([1], [1, 0], [0, 1]):
+                        yield sx([6, ty, 2, [da, tr, [3, 1, 0]], [2], wrt])
+                        yield sx([6, ty, 2, [da, tr, [3, 0, 1]], [2], wrt])
+                    for kind in (0, 1):
+                        yield sx([6, ty, 2, [da, [7, kind, 0], [1, 0, 12, k(2), 1]], [2], [1]])
+                        yield sx([6, ty, 2, [da, [7, kind, 0], [1, 0, 12, k(2), 1]], [2], [0, 1]])
+                        yield sx([6, ty, 2, [da, [7, kind, 0], [1, 0, 12, k(2), 0]], [2], [1, 0]])
+                else:
+                    tm = [5, 0, mshape(c, r), 1, [3, 12, k(1), X], 0]     # env 1: transposed copy, new records
+                    for wrt in ([1], [1, 0], [2]):
+                        yield sx([6, ty, 2, [da, tm, [8, 2, [[1, 1]], [1]], [3, 0, 2]], [3], wrt])
+                        yield sx([6, ty, 2, [da, tm, [8, 2, [[1, 0]], [1]], [3, 2, 0]], [3], wrt])
+    # (a constants container or a missing position in the query list is outside the language:
+    # bad case on both sides, not generated); the empty query list
+    sh = tshape(2, [2, 2])
+    da = [0, 1, 1, sh, data(ty, 4, 0)]
+    dc = [0, 1, 0, sh, data(ty, 4, 3)]
+    yield sx([6, ty, 2, [da, dc, [2, 1, 2, 0, 1]], [2], []])
+
+
+def closure_has_history(e):
+    """True: the closure's result certainly carries the element's history; False: certainly a
+    constant; None: depends on the index / a foreign record"""
+    t = e[0]
+    if t == 0:
+        return True
+    if t in (1, 2):
+        return False
+    if t == 3:
+        return closure_has_history(e[3])
+    if t == 4:
+        a, b = closure_has_history(e[2]), closure_has_history(e[3])
+        if a is True or b is True:
+            return True if (a is not None and b is not None) else None
+        return False if (a is False and b is False) else None
+    return None
+
+
 def float_cases():
     """Rat programs that are ALSO run on f64 by the harness (declarations, unary kinds, binary
     kinds, views): a constants x variables elementwise operation followed by an operation whose
@@ -477,7 +589,7 @@ def random_program(rng):
         shape = shape or rand_shape(tensor)
         var = rng.random() < 0.7 if var is None else var
         ops.append([0, tensor, var, shape, [value() for _ in range(elements(shape))]])
-        env.append(dict(tensor=tensor, shape=shape, var=var, bits=5))
+        env.append(dict(tensor=tensor, shape=shape, var=var, bits=5, sure=bool(var)))
         return len(env) - 1
 
     # declarations: a base shape shared by most, so that binary operations apply
@@ -517,7 +629,7 @@ def random_program(rng):
             ops.append([2, mode, code, a, b])
             if eb["shape"] != ea["shape"]:
                 break     # panics: the program ends here
-            env.append(dict(ea, var=ea["var"] or eb["var"], bits=bits))
+            env.append(dict(ea, var=ea["var"] or eb["var"], bits=bits, sure=ea["sure"] or eb["sure"]))
         elif r < 0.68:
             if len(ea["shape"]) != 2:
                 continue
@@ -542,14 +654,14 @@ def random_program(rng):
                 break
             env.append(dict(tensor=ea["tensor"], shape=[[ea["shape"][0][0], ea["shape"][0][1]],
                                                           [eb["shape"][1][0], eb["shape"][1][1]]],
-                            var=ea["var"] or eb["var"], bits=bits))
+                            var=ea["var"] or eb["var"], bits=bits, sure=ea["sure"] or eb["sure"]))
         elif r < 0.82:
             e = random_closure(rng, ty, rng.choice([1, 2, 2, 3]))
             bits = ea["bits"] * closure_growth(e) + 8
             if bits > limit:
                 continue
             ops.append([4, rng.random() < 0.4, e, a])
-            env.append(dict(ea, bits=bits))
+            env.append(dict(ea, bits=bits, sure=ea["sure"] and closure_has_history(e) is True))
             if "(5 " in sx(e) or "(2 " in sx(e):
                 # may be an inconsistent history (program ends) or a constants container
                 if "(5 " in sx(e) and ea["var"] and elements(ea["shape"]) > 1:
@@ -581,7 +693,7 @@ def random_program(rng):
             ops.append([5, tgt_tensor, tsh, colmajor, e, a])
             if elements(tsh) != elements(ea["shape"]):
                 break
-            env.append(dict(ea, tensor=tgt_tensor, shape=tsh, bits=bits))
+            env.append(dict(ea, tensor=tgt_tensor, shape=tsh, bits=bits, sure=ea["sure"] and closure_has_history(e) is True))
             if "(5 " in sx(e) and elements(ea["shape"]) > 1:
                 break
         elif r < 0.95 and rng.random() < 0.5:
@@ -628,8 +740,9 @@ def random_program(rng):
             ops.append([9, tgt_tensor, tsh, (not ea["tensor"]) and rng.random() < 0.3, take, es, a])
             if m == 0 or elements(tsh) != m or any("(5 " in sx(e) or "(6)" in sx(e) for e in es):
                 break
-            for _ in range(N):
-                env.append(dict(ea, tensor=tgt_tensor, shape=tsh, bits=bits))
+            for j in range(N):
+                env.append(dict(ea, tensor=tgt_tensor, shape=tsh, bits=bits,
+                                sure=ea["sure"] and closure_has_history(es[j]) is True))
         else:
             e1 = random_closure(rng, ty, 2, rng.random() < 0.5)
             e2 = random_closure(rng, ty, 2, rng.random() < 0.5)
@@ -637,13 +750,19 @@ def random_program(rng):
             if bits > limit:
                 continue
             ops.append([6, e1, e2, a])
-            env.append(dict(ea, bits=bits))
-            env.append(dict(ea, bits=bits))
+            env.append(dict(ea, bits=bits, sure=ea["sure"] and closure_has_history(e1) is True))
+            env.append(dict(ea, bits=bits, sure=ea["sure"] and closure_has_history(e2) is True))
             if ("(5 " in sx(e1) or "(5 " in sx(e2)) and elements(ea["shape"]) > 1:
                 break
         done += 1
     nout = rng.choice([1, 1, 2, 3])
     outs = sorted(set([len(env) - 1] + [rng.randrange(len(env)) for _ in range(nout - 1)]))
+    # sometimes: query the derivatives with respect to a random set of containers that certainly
+    # live on the tape (views, from_iters outputs, intermediate results), in a random order
+    sure = [i for i, e in enumerate(env) if e["sure"]]
+    if sure and rng.random() < 0.4:
+        wrt = rng.sample(sure, rng.randrange(1, min(len(sure), 3) + 1))
+        return sx([6, ty, D, ops, outs, wrt])
     return sx([6, ty, D, ops, outs])
 
 
@@ -654,6 +773,7 @@ def gen(tier, rng):
         yield from view_cases(ty, quick)
         yield from select_cases(ty, quick)
         yield from collect_cases(ty, quick)
+        yield from query_cases(ty, quick)
     yield from float_cases()
     for _ in range(7000 if quick else 50000):
         yield random_program(rng)
